@@ -23,8 +23,16 @@ Builder side (proofs in Lemmas/C16Basic, C16Inv, C16Push, C16New, C16Run):
   unchecked have one entry per field / variant; decimal precisions are the accepted ones), `push` does not unwind;
   `NPInv` is established by `build_builder` and preserved by every successful push of every value;
 * `newDT`, `finish`, `extend`, `serializeWith`, `runRows`, `toMarrow` never unwind, for every field list and all rows.
-The external conversions enter through `ExtNP ext` (they do not unwind); `codecExt_np` discharges it for the
-C14 / C15 codec models.  The per-codec theorems are collected at the end.
+The external conversions enter through `ExtNP ext` (they do not unwind); `codecExt_np` discharges it — without any
+hypothesis — for the C14 / C15 codec models, the timestamp string parser included (`timestampOfString_no_panic`).
+
+Tracing: `absorb_no_panic` / `fromSamples_no_panic`; `fromType_no_panic` for EVERY type description and all options
+(corollary of C08's `C08_from_type`), `explore_no_panic` on every tracer that conforms to the type (`Conf`),
+`passes_no_panic`; the pass budget; the depth limit for every container family (`fromType_deep_is_error`,
+`descends_containers`, `descends_wrappers`).
+Reader: `Deserializer::new` / `get` / `next` / bulk over arbitrary views; whole-batch typed reads (`readBatch_no_panic`).
+Schema side: `Term::from_str`, `build_data_type`, `validate_field`, `parseField`, `parseSchema` for every text / JSON
+value (`parseField_no_panic` …).  The per-codec and per-helper theorems (C13–C15, C20) are collected at the end.
 -/
 namespace SaModel.Props.C16
 open SaModel SaModel.Build
